@@ -242,6 +242,18 @@ class Dumper {
     if (const Type* T = Q->getAsType()) J.attribute("qualT", canonStr(QualType(T, 0)));
   }
 
+  // explicit template arguments written at a name (insert_node_<true, false, true>)
+  void etaAttrs(ArrayRef<TemplateArgumentLoc> Args) {
+    J.attributeArray("eta", [&] {
+      for (const TemplateArgumentLoc& A : Args) {
+        std::string s;
+        llvm::raw_string_ostream os(s);
+        A.getArgument().print(PP, os, true);
+        J.value(os.str());
+      }
+    });
+  }
+
   void dumpStmt(const Stmt* S0) {
     const Stmt* S = strip(S0);
     if (!S) {
@@ -399,6 +411,7 @@ class Dumper {
       if (auto* ME = dyn_cast<MemberExpr>(S)) {
         dumpDeclRefTarget(ME->getMemberDecl());
         qualAttrs(ME->getQualifier());
+        if (ME->hasExplicitTemplateArgs()) etaAttrs(ME->template_arguments());
         if (ME->isArrow()) J.attribute("arrow", true);
         if (ME->isImplicitAccess()) J.attribute("implicit", true);
         children(S);
@@ -407,6 +420,7 @@ class Dumper {
       if (auto* ME = dyn_cast<CXXDependentScopeMemberExpr>(S)) {
         J.attribute("n", ME->getMember().getAsString());
         qualAttrs(ME->getQualifier());
+        if (ME->hasExplicitTemplateArgs()) etaAttrs(ME->template_arguments());
         if (ME->isArrow()) J.attribute("arrow", true);
         if (ME->isImplicitAccess()) {
           J.attribute("implicit", true);
@@ -418,6 +432,7 @@ class Dumper {
       if (auto* ME = dyn_cast<UnresolvedMemberExpr>(S)) {
         J.attribute("n", ME->getMemberName().getAsString());
         qualAttrs(ME->getQualifier());
+        if (ME->hasExplicitTemplateArgs()) etaAttrs(ME->template_arguments());
         if (ME->isArrow()) J.attribute("arrow", true);
         if (ME->isImplicitAccess()) {
           J.attribute("implicit", true);
@@ -429,6 +444,7 @@ class Dumper {
       if (auto* UL = dyn_cast<UnresolvedLookupExpr>(S)) {
         J.attribute("n", UL->getName().getAsString());
         qualAttrs(UL->getQualifier());
+        if (UL->hasExplicitTemplateArgs()) etaAttrs(UL->template_arguments());
         return;
       }
       if (auto* DS = dyn_cast<DependentScopeDeclRefExpr>(S)) {
@@ -618,6 +634,11 @@ class Dumper {
       }
       if (FD->isDefaulted()) J.attribute("defaulted", true);
       if (FD->getDescribedFunctionTemplate() || FD->getPrimaryTemplate()) J.attribute("fntemplate", true);
+      if (auto* FT = FD->getDescribedFunctionTemplate()) {
+        J.attributeArray("tparams", [&] {
+          for (const NamedDecl* P : *FT->getTemplateParameters()) J.value(P->getNameAsString());
+        });
+      }
       J.attributeArray("params", [&] {
         for (auto* P : FD->parameters()) dumpVarDecl(P);
       });
